@@ -34,6 +34,8 @@ func init() {
 			{Name: "fixed-start-all-65536", N: fw.Const(256, 256), Run: c07Fixed, Exhaustive: true},
 			{Name: "long-walks", N: fw.Const(6, 40), Run: c07Walk},
 			{Name: "random-sequencers", N: fw.Const(400, 4000), Run: c07Random},
+			{Name: "rollover-count-magnitudes-hook", N: fw.Const(24, 240), Run: c07Magnitudes},
+			{Name: "deep-walk-2e32-values", N: fw.Const(1, 2), Run: c07Deep},
 			{Name: "concurrent-short-histories", N: fw.Const(10000, 200000), Run: c07Short, Race: true, Serial: true},
 			{Name: "concurrent-long-histories", N: fw.Const(3, 100), Run: c07Long, Race: true, Serial: true},
 		},
@@ -116,6 +118,99 @@ func c07Walk(c *fw.Ctx, i int) {
 	c.Count("wraps_crossed_sequentially", int(zeros))
 	c.Shapef("walk-start-%d", s>>12)
 	c.Sample(map[string]any{"start": s, "steps": 200000, "wraps": zeros})
+}
+
+// c07Magnitudes puts a sequencer (hook VerifSetSequencerState) just below a power-of-two number of completed rollovers and walks it across:
+// the count is a uint64 and must keep counting exactly where a narrower or packed representation would wrap or saturate.
+func c07Magnitudes(c *fw.Ctx, i int) {
+	bases := []uint64{1<<8 - 1, 1<<15 - 1, 1<<16 - 2, 1<<16 - 1, 1<<24 - 1, 1<<31 - 1, 1<<32 - 2, 1<<32 - 1, 1<<47 - 1, 1<<48 - 1, 1<<53 - 1, 1<<63 - 2, 1<<63 - 1, 1<<64 - 4}
+	base := bases[i%len(bases)]
+	if i >= len(bases) {
+		base -= uint64(c.R.Intn(3))
+	}
+	last := uint16(c.R.Pick(65535, 65534, 65000, 0, 1, c.R.Intn(65536)))
+	seq := rtp.NewFixedSequencer(7)
+	if !hookSetSequencerState(seq, last, base) {
+		c.Count("skipped_no_hook(the deep walk covers 2^16 rollovers black-box)", 1)
+		return
+	}
+	if r := seq.RollOverCount(); r != base {
+		c.Fail("C07/sequential/rollover-count", fmt.Sprintf("state set to %d completed rollovers, RollOverCount = %d", base, r), fw.W("base", base, "last", last))
+		return
+	}
+	zeros := uint64(0)
+	prev := last
+	for k := 0; k < 200000; k++ {
+		v := seq.NextSequenceNumber()
+		if v != prev+1 {
+			c.Fail("C07/sequential/step", fmt.Sprintf("%d followed by %d", prev, v), fw.W("base", base, "last", last, "k", k))
+			return
+		}
+		prev = v
+		if v == 0 {
+			zeros++
+		}
+		if v < 2 || v > 65533 || k%977 == 0 {
+			if r := seq.RollOverCount(); r != base+zeros {
+				c.Fail("C07/sequential/rollover-count", fmt.Sprintf("%d rollovers before, %d zeros issued since: RollOverCount = %d, want %d", base, zeros, r, base+zeros),
+					fw.W("base", base, "last", last, "k", k))
+				return
+			}
+		}
+	}
+	c.Evals(200000)
+	c.Count("rollover_count_magnitude_walks", 1)
+	c.Shapef("rollovers-2^%d", bitlen(base))
+	if i < 2 {
+		c.Sample(map[string]any{"completed_rollovers_at_start": base, "last": last, "steps": 200000, "wraps": zeros})
+	}
+}
+
+func bitlen(x uint64) int {
+	n := 0
+	for ; x > 0; x >>= 1 {
+		n++
+	}
+	return n
+}
+
+// c07Deep: one sequencer, 2^32 + 2^18 values drawn through the public API only, so that the rollover count itself passes 65536.
+// It runs in the thorough tier, and in the quick tier whenever the hooks are not compiled in (a change to the sequencer's
+// representation breaks the hook; the check then falls back to the untagged build and this walk takes over).
+func c07Deep(c *fw.Ctx, i int) {
+	if c.Tier == fw.Quick && (c.Hooks || i > 0) {
+		c.Count("deep_walk_left_to_hook_stratum_and_thorough_tier", 1)
+		return
+	}
+	start := uint16(1)
+	if i > 0 {
+		start = uint16(c.R.Intn(65536))
+	}
+	seq := rtp.NewFixedSequencer(start)
+	prev := start - 1
+	zeros := uint64(0)
+	const total = uint64(1)<<32 + 1<<18
+	for k := uint64(0); k < total; k++ {
+		v := seq.NextSequenceNumber()
+		if v != prev+1 {
+			c.Fail("C07/sequential/step", fmt.Sprintf("value #%d: %d followed by %d", k, prev, v), fw.W("start", start, "k", k))
+			return
+		}
+		prev = v
+		if v == 0 || v == 0x8000 {
+			if v == 0 {
+				zeros++
+			}
+			if r := seq.RollOverCount(); r != zeros {
+				c.Fail("C07/sequential/rollover-count", fmt.Sprintf("after %d values (%d zeros issued) RollOverCount = %d", k+1, zeros, r), fw.W("start", start, "k", k, "zeros", zeros))
+				return
+			}
+		}
+	}
+	c.Evals(int(total))
+	c.Count("deep_walk_wraps_crossed", int(zeros))
+	c.Shapef("deep-walk-%d", i)
+	c.Sample(map[string]any{"start": start, "values_drawn": total, "wraps": zeros})
 }
 
 func c07Random(c *fw.Ctx, i int) {
